@@ -13,7 +13,7 @@ RULE = ("enum: each of the 20 single residues and 60 two/three-residue titratabl
         "[-10,0) U (14,30] and +/-inf. Oracle: own Henderson-Hasselbalch sums at the EMBOSS pKa values / N for NCPR(pH), FCR(pH), "
         "|NCPR(pH)| for mean net charge, FCR(pH)+f_P for the expanding fraction; NCPR non-increasing in pH; |NCPR|<=FCR<=titratable/N; "
         "out-of-range pH raises; get_isoelectric_point() returns (10 s watchdog = inconclusive) a pH where the harness's own charge per "
-        "titratable residue is within 0.02 of zero, 7.0 when nothing titrates. sequences <=60 residues optionally after a generated warm-up history; the object that has just computed its pI is re-titrated at the pH values the bisection visits. Non-trivial: >=1 titratable residue; distinct by (sequence, pH pair).")
+        "titratable residue is within 0.02 of zero, 7.0 when nothing titrates. sequences <=60 residues optionally after a generated warm-up history; the object that has just computed its pI is re-titrated at the pH values the bisection visits. Non-trivial: >=1 titratable residue; distinct by (sequence, pH pair). A quarter of the random cases use a pasted spelling. In the generated parts one clean word in eight is handed to the constructor as SeqObj=Sequence(lower/mixed-case text) instead of as a string (same object expected).")
 ASSUMPTIONS = ["pKa table in vlc/ref.py transcribes the documented EMBOSS values (C 8.5, Y 10.1, H 6.5, E 4.1, D 3.9, K 10.0, R 12.5)",
                "NaN is not a pH and is not generated", "tolerance 1e-9 on charges; 0.02 + 1e-9 on the pI condition; 1e-12 slack on monotonicity (float summation)"]
 TECHNIQUE = "Hypothesis property testing + small exhaustive grid; differential oracle = independent Henderson-Hasselbalch evaluation, monotonicity and bound invariants, validity predicate for the isoelectric point"
